@@ -811,6 +811,7 @@ type h1Exchange struct {
 		Ae      string `json:"ae"`
 		Slow    bool   `json:"slow"`
 		Refused bool   `json:"refused"`
+		Crlf    bool   `json:"crlf"`
 	} `json:"req"`
 	Up  upShape `json:"up"`
 	Exp struct {
@@ -953,6 +954,9 @@ func (he *h1Env) sequence(si int, seq []h1Exchange) map[string]any {
 			reqBody = payload(he.seed, "req"+id, pickSize(ex.Req.Sz, salt+1))
 			fmt.Fprintf(&rb, "Content-Length: %d\r\n\r\n", len(reqBody))
 			rb.Write(reqBody)
+			if ex.Req.Crlf {
+				rb.WriteString("\r\n") // an empty line after the body, not part of it
+			}
 		case "chunked":
 			reqBody = payload(he.seed, "req"+id, pickSize(ex.Req.Sz, salt+1))
 			rb.WriteString("Transfer-Encoding: chunked\r\n\r\n")
